@@ -209,10 +209,18 @@ class Check(PropertyCheck):
         if self.tier == "quick":
             self.rng.shuffle(combos)
             combos = combos[:14] + [c for c in combos[14:] if "async" in c[1] + c[2]][:8]
+        # the same histories with errors that carry something unpicklable (a lock, an open file, a generator, a lambda):
+        # recording such a failure must not replace it by a serialisation error (seeded change C12d)
+        plain = [(sh, pa, le, None) for sh, pa, le in combos]
+        carried = [(sh, pa, le, pl) for pl in ("lock", "file", "generator", "lambda")
+                   for sh, pa, le in (combos if self.tier != "quick" else
+                                      [("leaf", "par_sync_full", "leaf_sync_full"), ("top", "par_sync_full", "leaf_sync_full"),
+                                       ("parent", "par_async_full", "leaf_sync_shallow")])]
         try:
-            for i, (sh, pa, le) in enumerate(combos):
+            for i, (sh, pa, le, pl) in enumerate(plain + carried):
                 db = tmp / f"m{i}.db"
                 x = 100 + i
+                T.PAYLOAD[0] = pl
 
                 def run():
                     s = Scheduler(config=Config({"backend": {"db_uri": f"sqlite:///{db}"}}))
@@ -231,7 +239,7 @@ class Check(PropertyCheck):
                 r4, c4 = run()
                 self.evaluations += 1
                 self.stat("matrix", f"{sh}/{'async' if 'async' in pa and sh != 'leaf' else 'sync'}-parent/{'async' if 'async' in le else 'sync'}-leaf")
-                want_err = ("err", "ValueError", f"boom-{le}-{x}")
+                want_err = ("err", "ValueError" if pl is None else "Busy", f"boom-{le}-{x}")
                 what = None
                 if r1 != want_err:
                     what = ("first-run", f"run 1 gave {r1!r}, expected {want_err!r}")
@@ -245,10 +253,12 @@ class Check(PropertyCheck):
                     what = ("values-not-replayed", f"run 4 gave {r4!r}, run 3 {r3!r}")
                 if what:
                     nb += 1
-                    self.findings.append(Finding(f"matrix:{what[0]}:{sh}:{pa if sh != 'leaf' else '-'}:{le}", what[1],
-                                                 {"matrix": [sh, pa, le], "history": "fail, fail, repaired, replay"}))
+                    self.findings.append(Finding(f"matrix:{what[0]}:{sh}:{pa if sh != 'leaf' else '-'}:{le}"
+                                                 + (f":error-carries-{pl}" if pl else ""), what[1],
+                                                 {"matrix": [sh, pa, le], "payload": pl, "history": "fail, fail, repaired, replay"}))
         finally:
             T.FAIL[0] = True
+            T.PAYLOAD[0] = None
             shutil.rmtree(tmp, ignore_errors=True)
         return nb
 
